@@ -276,6 +276,9 @@ impl<const K: usize> AffTree<K> {
                 let mut created_children = 0;
                 let mut skipped_children = 0;
                 let mut label_created = None;
+                // infeasible branch whose removal is postponed: a decision has to keep at
+                // least one branch, otherwise it would turn into a terminal
+                let mut postponed: Option<(TreeIndex, TreeIndex, Label)> = None;
 
                 for edg in lhs.tree.children(parent0_idx) {
                     let child0_idx = edg.target_idx;
@@ -307,7 +310,20 @@ impl<const K: usize> AffTree<K> {
                         label_created = Some(label);
                     } else {
                         skipped_children += 1;
+                        if let Some((_, _, old_label)) =
+                            postponed.replace((child0_idx, child1_idx, label))
+                        {
+                            rhs.tree.remove_child(parent1_idx, old_label);
+                        }
+                    }
+                }
+
+                if let Some((child0_idx, child1_idx, label)) = postponed {
+                    if created_children > 0 {
                         rhs.tree.remove_child(parent1_idx, label);
+                    } else {
+                        // all branches are infeasible: keep the last one (and complete it)
+                        stack.push((child0_idx, child1_idx));
                     }
                 }
 
